@@ -99,6 +99,8 @@ Record c04_case := {
   k_parses : list (string * (res * (res * res)));     (* s, Parse<T>, ParseString, ParseGeneric *)
   (* history: after the observations above the observer WRITES into the slices it got from Values() and
      StringValues() (k_hist) and observes again *)
+  (* Parse<T> / ParseGeneric on inputs that are not strings: numbers, booleans, nil, byte slices, the enum value itself *)
+  k_odd : list (dyn * (res * res));
   k_hist : list hist_ev;
   k_values2 : list Z; k_strvalues2 : list string; k_probes2 : list (Z * (bool * string))
 }.
@@ -129,6 +131,10 @@ Definition c04_spec_ok (c : c04_case) : bool :=
   && forallb (fun p => let '(s, (r1, (r2, r3))) := p in
                        res_eqb r1 r2 && res_eqb r1 r3 && parse_spec_ok d (k_opts c) s r1)
              (k_parses c)
+  (* an input that is not a string is the value of no name: rejected unless it is a parsable trait value *)
+  && forallb (fun p => let '(x, (r1, r3)) := p in
+                       res_eqb r1 r3 && (if is_parsable_trait_value d (k_opts c) x then negb (res_eqb r1 RPanic) else res_eqb r1 RErr))
+             (k_odd c)
   (* … and the same after any history of caller writes *)
   && list_eqb Z.eqb (k_values2 c) vs
   && list_eqb String.eqb (k_strvalues2 c) (map (string_spec d) vs)
@@ -150,6 +156,9 @@ Definition c04_model_eq (k : skels) (c : c04_case) : bool :=
                            res_eqb r1 m && (negb (sk_parsestring k) || res_eqb r2 m)
                            && (negb (sk_parsegeneric k) || res_eqb r3 m))
                  (k_parses c)
+      && forallb (fun p => let '(x, (r1, r3)) := p in
+                           let m := res_of (sem_parse_sk (sk_parse k) t x) in
+                           res_eqb r1 m && (negb (sk_parsegeneric k) || res_eqb r3 m)) (k_odd c)
       && list_eqb Z.eqb (k_values2 c) (sem_values_hist k t (k_hist c))
       && list_eqb String.eqb (k_strvalues2 c) (sem_stringvalues_sk k t)
       && forallb (fun p => let '(e, (valid, str)) := p in
